@@ -94,3 +94,17 @@ func init() {
 		stub: []string{"host module mk (mark/boom): simulator-owned; the k-th mark call returns the injected error", "allocation failures: Script.SetMaxAllocs", "no scheduler or clock involved: single-threaded fault enumeration"},
 	}
 }
+
+func init() {
+	props["C15"] = &propCfg{
+		id: "C15", level: "exploration", quickN: 20000, thoroughN: 2000000,
+		rule: "One episode = one generated API history. seq shape: one client, up to ~35 operations out of Script.Add/Remove/Compile/Run/RunContext, Compiled.Set/Get(+all typed accessors)/GetAll/IsDefined/Run/RunContext/Clone and Eval, over 1-2 scripts of a tiny effect DSL, with Go values of every documented kind (nested, plus kinds outside the table), optionally with injected faults inside runs (cancellation at a chosen instruction, failing/panicking host call, allocation budget) that leave prefix states; checked operation by operation against the executable reference model (set of possible states). " +
+			"conc shape: 2-3 simulated clients issue up to 24 operations on one compiled object and its clones under a seeded schedule; the invoke/return history stamped with controller decision numbers is checked for linearizability with porcupine against the same model. Every written value is unique. A case is (shape | number of distinct operation kinds or clients/ops bucket | faulty); non-trivial when at least 5 operation kinds occur (seq) or the clients were really interleaved (conc).",
+		assume: []string{
+			"the model follows the documented conversion and coercion tables; cells the documentation leaves open (immutable containers through Array()/Map(), text of an error read back beyond the 'error: ' prefix) are not asserted",
+			"aliasing between Go slices/maps handed to Add/Set and script objects, and state sharing between two objects compiled from one Script, are deliberately not asserted",
+			"script meaning is fixed by closed-form model code for a tiny effect DSL; no general interpreter is involved",
+		},
+		real: realCommon, stub: stubCommon,
+	}
+}
